@@ -99,6 +99,33 @@ def skip_reason(st: PState, m: str, ids, sentinels=frozenset()) -> tuple:
     return "", opaque
 
 
+def id_origin_ok(o: str):
+    """The id a request is built with: the caller's `message_id`, and where the library chooses one itself every
+    alternative is uuid4-derived — ids from a counter or a clock live in the namespace callers use for their own ids, so
+    two outstanding requests can carry the same id."""
+    try:
+        tree = ast.parse(o.replace("<", "(").replace(">", ")"), mode="eval").body
+    except SyntaxError:
+        return ("message_id" in o or "uuid4()" in o), ""
+    alts = []
+
+    def split(e):
+        if isinstance(e, ast.BoolOp) and isinstance(e.op, ast.Or):
+            for v in e.values:
+                split(v)
+        elif isinstance(e, ast.IfExp):
+            split(e.body)
+            split(e.orelse)
+        else:
+            alts.append(e)
+
+    split(tree)
+    bad = [ast.unparse(a) for a in alts if not (isinstance(a, ast.Name) and a.id == "message_id") and "uuid4()" not in ast.unparse(a)]
+    if bad:
+        return False, f"the library's own choice `{bad[0][:60]}` is not uuid4-derived: it can coincide with an id a caller supplies for another outstanding request (or with an earlier one), and the id filter then hands one caller the other's response"
+    return True, ""
+
+
 def skipped_messages(W, ids, R):
     """One entry per distinct way the wait loop goes round again after a receive() that completed:
     (reason the message cannot be the awaited response or '', what is known about it, what else is known)."""
@@ -232,7 +259,8 @@ def check(P: Project, R: Report) -> None:
         if mk:
             parts = dict(p.split("=", 1) for p in mk[-1][len("mkreq:"):].split("|"))
             o = san.origin(parts.get("id", ""))
-            R.ob("R2", "id is the caller's message_id or a fresh uuid4", "message_id" in o or "uuid4()" in o, f"{srel}", f"id origin `{o[:80]}`")
+            ok_id, why_id = id_origin_ok(o)
+            R.ob("R2", "id is the caller's message_id or a fresh uuid4", ok_id, f"{srel}", f"id origin `{o[:80]}`" + (f": {why_id}" if why_id else ""))
 
     # ------------------------------------------------------------------ R4
     send = W.send
